@@ -287,6 +287,28 @@ def explore(  # noqa: PLR0913, PLR0912, C901
             gc.collect()  # fixed collection points (the worker disables automatic GC)
         choices = ch.choices
         if len(choices) < len(prefix):
+            if res.violations:
+                # the execution ended before the replayed prefix was used up BECAUSE it ran into a
+                # violation its first run did not show: the library carries state from one
+                # execution to the next (every execution builds its objects afresh).  The
+                # violation is real for this execution; it is reported with the choices made (the
+                # runner replays it in a fresh process, repeatedly if need be); this branch is not
+                # expanded and the program counts as capped, never as exhaustive.
+                stats.executions += 1
+                stats.capped_programs += 1
+                for v in res.violations:
+                    stats.violation_count += 1
+                    w = {
+                        "program": program,
+                        "program_index": program_index,
+                        "choices": list(choices),
+                        "deviations": ch.deviations,
+                        **v,
+                    }
+                    best = stats.violations.get(v["signature"])
+                    if best is None or _rank(w) < _rank(best):
+                        stats.violations[v["signature"]] = w
+                continue  # this branch is not expanded; the other prefixes still are
             raise ReplayDivergence(
                 f"execution ended after {len(choices)} choices, prefix had {len(prefix)}"
             )
